@@ -314,8 +314,8 @@ class K6Adapter(CaseAdapter):
 class K7Adapter(CaseAdapter):
     module_name = 'k7'
     label = 'K7 (harness/k7*.py)'
-    N = dict(quick={'C08': 250, 'C14': 200, 'C07': 200, 'C18': 8, 'C09': 100, 'C16': 100, 'C19': 120},
-             thorough={'C08': 20000, 'C14': 12000, 'C07': 6000, 'C18': 60, 'C09': 6000, 'C16': 6000, 'C19': 8000})
+    N = dict(quick={'C08': 250, 'C14': 200, 'C07': 200, 'C18': 48, 'C09': 100, 'C16': 100, 'C19': 120},
+             thorough={'C08': 20000, 'C14': 12000, 'C07': 6000, 'C18': 200, 'C09': 6000, 'C16': 6000, 'C19': 8000})
     SEARCH = dict(quick=150, thorough=800)
     rule = ('seeded whole backtests on synthetic CSV markets written to a temporary directory (1-4 assets, gaps, missing cells, '
             'assets starting late; weekly/daily/end-of-month/buy-and-hold schedules; long-only and long/short sizing; zero and '
